@@ -425,8 +425,9 @@ def spec(tier, seed):
     for n, sizes in ((3, [1, 2]), (4, [2, 2])):
         for vals in itertools.product(pvals, repeat=3):
             a, b, c = vals
-            if n == 4 and (b == 0.5 or (a == 0.5 and c == 0.5)) and q:
-                continue  # 2^(candidate indices) paths: keep <= 8 candidates in the quick tier
+            ncand = 4 * (a == 0.5) + 8 * (b == 0.5) + 4 * (c == 0.5)
+            if n == 4 and ncand > (4 if q else 12):
+                continue  # 2^(candidate indices) paths: <= 4 candidates (quick) / <= 12 (thorough) for n = 4
             units.append(("C16.gen", {"gen": "uniform_HSBM", "n": n, "m": 2, "sizes": sizes, "p": [[a, b], [b, c]]}))
     t3 = np.zeros((2, 2, 2))
     t3[0, 1, 1] = 0.5
